@@ -10,6 +10,9 @@
   * `MappingStorage.new_oid` — a Python int `_oid += 1; p64(_oid)` — and (repaired code)
     `store` raising it: `_oid = max(_oid, u64(oid))`.
 
+  An un-creation record (`deleteObject`, undone creation) is a record like any other: its oid stays in
+  `index` — also in the index rebuilt by scanning the file on open — so the counter covers it.
+
   A storage state keeps the counter, the oids with a committed record (`index`), the oids written by
   the transaction in progress (`tindex`) and, as ghost state, the ids handed out since the storage
   was opened (`issued`).  Every operation is one critical section of the storage lock, so a thread
